@@ -19,6 +19,7 @@ CONFIGS = {
     "C04": {"quick": ["GenG1_ann_q.cfg"], "thorough": ["GenG1_ann_t.cfg"]},
     "C06": {"quick": ["GenG1_fn_q.cfg"], "thorough": ["GenG1_fn_t.cfg"]},
     "C03": {"quick": ["GenG1_cfg_q.cfg"], "thorough": ["GenG1_cfg_t.cfg"]},
+    "C09": {"quick": ["GenG1_batch_q.cfg"], "thorough": ["GenG1_batch_t.cfg", "GenG1_cfg_q.cfg"]},
     "C05": {"quick": ["GenG1_syms_q.cfg", "GenG1_cfg_q.cfg"],
             "thorough": ["GenG1_syms_t.cfg", "GenG1_cfg_t.cfg", "GenG1_ann_q.cfg"]},
 }
@@ -82,6 +83,17 @@ def expand_faults(cases_path: str, rng: random.Random) -> int:
     return len(out)
 
 
+def mark(cases_path: str, flags: dict) -> None:
+    lines = []
+    with open(cases_path) as f:
+        for line in f:
+            c = json.loads(line)
+            c.update(flags)
+            lines.append(json.dumps(c, separators=(",", ":")))
+    with open(cases_path, "w") as f:
+        f.write("\n".join(lines) + "\n")
+
+
 def run(prop: str, tier: str, replay: str = None) -> int:
     rep = Report(prop, tier)
     rng = random.Random(core.seed() * 1000003 + hash(prop) % 1000)
@@ -113,6 +125,8 @@ def run(prop: str, tier: str, replay: str = None) -> int:
             if prop == "C05":
                 n = expand_faults(cases, rng)
                 rep.level = "fault_enumeration"
+            if prop == "C09":
+                mark(cases, {"observe": True, "sequential": True})
         shards = core.split_file(cases, 16, wd, "cases")
         traces = core.run_module_parallel("harness.g1.runner", shards, wd, "g1")
         verdicts = tlc.validate_sharded("TraceG1.tla", "TraceG1.cfg", traces, jobs=16)
